@@ -67,6 +67,9 @@ def _mkgen():
     add("meta/doc.txt.abstract", b"Caf\xe9 abstract\nsecond line\n")   # non-UTF-8 sidecar
     add("meta/.Links", b"Name=R\xe9sum\xe9\nPath=./doc.txt\nNumb=1\n")
     add("meta/.cap/doc.txt", b"Type=0\n")
+    import gzip
+
+    add("meta/c.txt.gz", gzip.compress(b"compressed text\n", mtime=0))
     add("gm/gophermap", b"info\n0doc\t../meta/doc.txt\n0here\tt.txt\n")
     add("gm/t.txt", b"t\n")
     add("caf\u00e9.txt", b"utf8 name\n")                  # UTF-8 flagged name
@@ -206,7 +209,7 @@ def body_lookup(fx: int, p: str, warm: str) -> bool:
 # ------------------------------------------------------------------ archive vs extraction through the real handler chain
 
 GEN_DIRS = ["", "/v2", "/imp", "/imp/deep", "/meta", "/gm", "/current", "/latest"]
-GEN_DOCS = ["/data.txt", "/a_alias.txt", "/b_alias.txt", "/imp/abs", "/imp/up", "/imp/.hidden", "/meta/doc.txt", "/caf\u00e9.txt", "/\udcae.txt", "/imp/dangling", "/imp/loop1", "/imp/out", "/nonexistent", "/current/f.txt"]
+GEN_DOCS = ["/meta/c.txt.gz", "/data.txt", "/a_alias.txt", "/b_alias.txt", "/imp/abs", "/imp/up", "/imp/.hidden", "/meta/doc.txt", "/caf\u00e9.txt", "/\udcae.txt", "/imp/dangling", "/imp/loop1", "/imp/out", "/nonexistent", "/current/f.txt"]
 REQS = [(d, "menu") for d in GEN_DIRS] + [(d, "gopher+dir") for d in GEN_DIRS[:6]] + [(d, "doc") for d in GEN_DOCS]
 
 
